@@ -201,7 +201,7 @@ def witness_of(rej, fam_meta):
     e = run[rej["at"]]
     return {"class": "law-" + rej["law"], "law": rej["law"], "event": e["ev"], "batches": [x["n"] for x in run if x["ev"] == "batch"],
             "restarted_before": any(x["ev"] == "restart" for x in run[: rej["at"]]), "records": len(rej["stream"]["recs"]),
-            "threshold": fam_meta["threshold"], "kind": fam_meta.get("kind", "")}
+            "threshold": fam_meta["threshold"], "kind": fam_meta.get("kind", ""), "error": e.get("err", "")[:200]}
 
 
 def judge(ctx, binary, fams, tag, chunks, model_chunks=0):
